@@ -10,14 +10,14 @@ PID = "C03"
 LEVEL = "exploration"
 RULE = ("(a) enumerated: parent Signal width w in 1..W (W=6 quick, 8 thorough), every int index in [-2W,2W] and every "
         "slice(start,stop,step) with start,stop in [-2W,2W] or None and step in {None,+-1..+-W}; (b) Hypothesis: the same "
-        "index space applied to generated parent expressions of depth <=3 over signals, slices, concats, port references and "
-        "bundle references. Each index is built, its width queried, and the expression connected to an external-module port, "
+        "index space applied to generated parent expressions of depth <=3 over signals, slices, concats, port references (to ports of "
+        "plain instances and to broadcast-connected ports of instance arrays) and bundle references. Each index is built, its width queried, and the expression connected to an external-module port, "
         "elaborated and exported; the exported bits are compared with Python list indexing; selections of >= 2 bits are also wired "
         "element-wise to an instance array (1-bit and 2-bit elements), whose elements must receive the selected bits in order. Non-trivial = anything but a plain "
         "in-range non-negative unit-step slice of a Signal; distinct by (parent, index) text.")
 ASSUME = ["Python list indexing is the oracle", "acceptance is required only for in-range int indices and non-empty unit-step "
           "ranges with explicit bounds in [-w,w]; strided or out-of-range-bound slices may be rejected, but if accepted must "
-          "select what Python selects", "widths of slices of port/bundle references are only queried after elaboration",
+          "select what Python selects", "widths of slices of bundle references are only queried after elaboration (port-reference parents are tried both ways)",
           "late sizing (a Signal's width assigned after it was concatenated) is generated for concatenations of whole signals only"]
 
 _H = {}
@@ -52,7 +52,7 @@ def ref_bits(e, widths):
         for p in e[1]:
             out.extend(ref_bits(p, widths))
         return out
-    if t == "pref":  # port `a` of helper instance connected to signal e[1]
+    if t in ("pref", "aref"):  # port `a` of a helper instance (aref: of an array of three, broadcast) connected to signal e[1]
         return [(e[1], k) for k in range(widths[e[1]])]
     if t == "bref":  # leaf e[2] of bundle instance e[1]
         return [("%s_%s" % (e[1], e[2]), k) for k in range(widths["%s_%s" % (e[1], e[2])])]
@@ -121,9 +121,20 @@ class Ctx:
             self.helpers[signame] = inst
         return self.helpers[signame]
 
+    def helper_array(self, signame):
+        h = self.h
+        key = "arr:" + signame
+        if key not in self.helpers:
+            w = self.widths[signame]
+            X = h.ExternalModule(name="HA%d" % w, port_list=[h.Inout(name="a", width=w)], domain="verif")
+            self.helpers[key] = self.m.add(3 * X()(a=self.objs[signame]), name="ha_" + signame)
+        return self.helpers[key]
+
     def build(self, e):
         h = self.h
         t = e[0]
+        if t == "aref":
+            return self.helper_array(e[1]).a
         if t == "sig":
             return self.objs[e[1]]
         if t == "slice":
@@ -150,7 +161,11 @@ def strided_parent(e):
 
 
 def has_ref(e):
-    return e[0] in ("pref", "bref") or (e[0] == "slice" and has_ref(e[1])) or (e[0] == "cat" and any(has_ref(p) for p in e[1]))
+    return e[0] in ("pref", "bref", "aref") or (e[0] == "slice" and has_ref(e[1])) or (e[0] == "cat" and any(has_ref(p) for p in e[1]))
+
+
+def has_bref(e):
+    return e[0] == "bref" or (e[0] == "slice" and has_bref(e[1])) or (e[0] == "cat" and any(has_bref(p) for p in e[1]))
 
 
 def export_bit_on_primitive(widths, expr):
@@ -170,7 +185,7 @@ def export_bit_on_primitive(widths, expr):
     raise RuntimeError("dut.p not exported")
 
 
-def export_bits(widths, expr, port_width, probes=()):
+def export_bits(widths, expr, port_width, probes=(), early=False):
     """Connect expr to a port of port_width, export, and read the bits back (LSB first).
     probes: expressions that are built and asked for their width first, in the same module, any error being caught - a designer
     trying an index out at the prompt before settling on the right one."""
@@ -186,6 +201,12 @@ def export_bits(widths, expr, port_width, probes=()):
             pass
     X = h.ExternalModule(name="T%d" % port_width, port_list=[h.Input(name="a", width=port_width)], domain="verif")
     conn = c.build(expr)
+    if early:
+        # the designer looks at the selection's width before using it (whatever that says or raises)
+        try:
+            conn.width
+        except Exception:
+            pass
     c.m.add(X()(a=conn), name="dut")
     pkg = h.to_proto(c.m)
     mod = pkg.modules[-1]
@@ -276,6 +297,20 @@ def check_case(case):
             if refp:
                 trials += [2, 3]
     accepted = False
+    if refp and not has_bref(parent):
+        # port-reference parents: each trial also with the selection's width looked at before it is used
+        for pw in trials:
+            try:
+                gote = export_bits(widths, expr, pw, early=True)
+            except pkgread.PkgError as e:
+                out.append(("bit_outside_signal:width_read_first:%s" % kind, "%s (width asked for before use) exported a connection naming a bit outside its signal: %s" % (label, e)))
+                continue
+            except Exception:
+                continue
+            if expected is None:
+                out.append(("accepted_invalid:width_read_first:%s" % kind, "%s (width asked for before use) was exported (as %s) though Python selects nothing / raises IndexError" % (label, gote)))
+            elif gote != expected:
+                out.append(("wrong_bits:width_read_first:%s:%s" % (kind, parent[0]), "%s (width asked for before use) exported bits %s, Python selects %s" % (label, gote, expected)))
     for pw in trials:
         try:
             got = export_bits(widths, expr, pw)
@@ -466,7 +501,7 @@ def shard(idx, n, tier):
             if depth >= 3 or k <= 1:
                 return ["sig", draw(st.sampled_from(["s", "t", "u"]))]
             if k == 2:
-                return ["pref", draw(st.sampled_from(["s", "t", "u"]))]
+                return [draw(st.sampled_from(["pref", "pref", "aref"])), draw(st.sampled_from(["s", "t", "u"]))]
             if k == 3:
                 return ["bref", "g", draw(st.sampled_from(["x", "y", "n_width", "n_name"]))]
             if k <= 6:
